@@ -23,7 +23,7 @@ class Contract:
     def __init__(self, id, func, call, params=None, bind=None, requires=(), ref=None, compare=("result", "exc"),
                  props=(), applies=None, assumed=False, known=(), note="", setup=(), ensures=(), raises_only=None,
                  loops=None, inline=(), timeout=None, ghost=None, max_paths=None, use_contracts=True, exc_compare="class",
-                 replay=True, bounded=None):
+                 replay=True, bounded=None, ensures_exc=(), nondet=False):
         self.id = id
         self.func = func
         self.call = call
@@ -49,6 +49,8 @@ class Contract:
         self.exc_compare = exc_compare
         self.replay = replay
         self.bounded = bounded
+        self.nondet = nondet
+        self.ensures_exc = list(ensures_exc)  # postconditions on exceptional exit (over params and `exc`)
         REGISTRY.append(self)
         if id in BY_ID:
             raise ValueError(f"duplicate contract id {id}")
